@@ -76,7 +76,8 @@ def obligations(tier):
          ('{"b?":1,"a?":2,"?":{}}', REORD | DUP | UTF8, 0, PRES, 0),
          ('[-0,1.50,1e2,12345678901234567890,"?"]', 0, 0, CINT | CFLT | PRES, 0),
          ('{"%E2%80?":"<?>"}', 0, 0, HTML | JS | PRES | UTF8, 0),
-         ('[[?],{"?":{"?":[]}}]', 0, 0, MULTI | SPCOM, 1)]
+         ('[[?],{"?":{"?":[]}}]', 0, 0, MULTI | SPCOM, 1),
+         ('{"\\u00??":1,"?":2}', 0, 0, DUP | REORD, 0)]
     if not q:
         T += [('{"?":?,"?":[?]}', 0, 0, DUP | REORD | UTF8 | PRES | MULTI, 0),
               ('{"?":1,"?":2,"?":3}', REORD, 0, DUP | UTF8 | PRES, 0),
@@ -103,11 +104,14 @@ def obligations(tier):
         wrap("tmpl/1", 0, 0, '[{"?":?,"?":?},"%C0?"]' if not q else '[{"?":?},"%C0?"]', which)
     wrap("full/n=3", 3, 0, "", 0, 0, 0, MULTI | UTF8 | (0 if q else PRES | SPCOL))
     wrap("full/n=3", 3, 0, "", 1, 0, 0, DUP | SPCOM | (0 if q else SPCOL | REORD))
-    for ind in (1, 2, 3):
+    for ind in ((2,) if q else (1, 2, 3)):
         wrap("tmpl/2", 0, 0, '{"?":[?,{}],"?":{"a":[]}}', 1, 0, 0, 0, ind)
     wrap("full/n=3", 3, 0, "", 2, 0, 0, UTF8 | DUP)
-    wrap("tmpl/3", 0, 0, '{"?":?, "?":"?"}', 2, 0, 0, DUP | (0 if q else CINT | UTF8))
+    wrap("tmpl/3", 0, 0, '{"?":1, "?":"?"}' if q else '{"?":?, "?":"?"}', 2, 0, 0, DUP | (0 if q else CINT | UTF8))
     if not q:
         wrap("tmpl/4", 0, 0, ' [ {"?":?,"?":[?]} , ? ] ', 1, 0, 0, SPCOL | SPCOM | MULTI | PRES, 1)
         wrap("tmpl/5", 0, 0, '{"??":1,"?":{"?":2}}', 2, 0, 0, DUP | UTF8)
+    only = os.environ.get("VERIF_ONLY")  # development aid: run the obligations whose id contains this text
+    if only:
+        L = [o for o in L if only in o["id"]]
     return L
